@@ -6,6 +6,7 @@ from ..hier import Hier
 from ..runner import Acc
 from ..sweep import graph_case, graph_spec, staged, sweep, exc_fingerprint
 from ..walk import product
+from ..conform import generated_code_leg, simulator_leg
 
 PROP = "C01"
 WALKERS = ("name", "region")
@@ -31,6 +32,18 @@ def check_graph(g, fam, acc: Acc, opts):
                          case=graph_case(g, fam, stage, walker=kind, payload=payload,
                                          decisions=[list(p) for p in path]))
             acc.outcomes.add((r.states, r.transitions))
+    # conformance legs: bind the region walker to real consumers (never reported as C01 violations)
+    if len(g) <= opts.get("conform_max_blocks", 5) and payload == "basic":
+        H = opts.get("conform_horizon", 5)
+        for leg, fn in (("generated-code", generated_code_leg), ("simulator", simulator_leg)):
+            n, mism, status = fn(g, H)
+            acc.traces += n
+            acc.counters[f"conformance[{leg}][{status}]"] += 1
+            acc.counters[f"conformance[{leg}]_traces"] += n
+            if mism:
+                acc.counters[f"conformance[{leg}]_MISMATCH"] += len(mism)
+                if len(acc.samples) < 10:
+                    acc.samples.append({"conformance_mismatch": leg, "graph": [list(r) for r in g], "first": repr(mism[0])[:400]})
     if len(acc.samples) < 3 and len(g) >= 4:
         acc.samples.append({"family": fam, "graph": [list(r) for r in g], "stages": list(("J", "JL", "JLB")),
                             "walkers": list(WALKERS)})
@@ -38,7 +51,11 @@ def check_graph(g, fam, acc: Acc, opts):
 
 def run(tier: str, seed: int):
     spec = graph_spec(tier)
-    acc = sweep(__name__, spec, {}, seed)
+    acc = sweep(__name__, spec, {"conform_max_blocks": 5 if tier == "quick" else 9, "conform_horizon": 5 if tier == "quick" else 6}, seed)
+    for k, v in acc.counters.items():
+        if k.endswith("_MISMATCH"):
+            import sys
+            sys.stderr.write(f"NOTE: {k} = {v}: the walker and a real consumer disagree (see evidence samples)\n")
     cov = {
         "rule": "every closed CFG of the listed families x stage prefixes J, JL, JLB x walkers {by-name, region-by-region}; "
                 "product of original graph with restructured hierarchy and control-variable valuation explored to the fix-point",
@@ -47,7 +64,9 @@ def run(tier: str, seed: int):
     }
     return {"acc": acc, "coverage": cov, "assumptions": [
         "walker semantics (DESIGN 2.3) are the checker's reading of by-name and region-by-region execution",
-        "instances on which a stage raises are skipped here and charged to C02"]}
+        "instances on which a stage raises are skipped here and charged to C02",
+        "traces_validated_against_impl = executions of SCFG2AST-generated code and of the repository's test Simulator whose trace of "
+        "original blocks equals the region walker's prediction for the same decisions"]}
 
 
 def replay(case) -> Acc:
